@@ -32,6 +32,29 @@ pub fn generate(seed: u64, tier: Tier) -> SoftStopPlan {
     mux.soft_stop_at_ns = Some(match rng.below(4) { 0 => rng.below(3 * MS), 1 => 2 * MS + rng.below(20 * MS), _ => rng.below(150 * MS) });
     for c in mux.h2_clients.iter_mut() { c.give_up_ns = 60 * SEC; }
     for c in mux.h1_clients.iter_mut() { c.give_up_ns = 60 * SEC; }
+    // One plan in four: a *stalled download*. The first body-less request of the HTTP/2 client gets a response one
+    // stream window plus a tail of less than a buffer long, from a backend that writes as fast as it can, and the client
+    // grants stream credit only 200-400 ms after it ran out. So when the soft stop arrives (40-150 ms) the backend has
+    // finished and gone, and the tail of the response exists only inside sozu, waiting for the client's window.
+    if rng.below(4) == 0 {
+        if let (Some(c), MuxBackend::H1(b)) = (mux.h2_clients.first_mut(), &mut mux.clusters[0].backend) {
+            let window = c.conn.settings.initial_window_size.unwrap_or(65535) as usize;
+            let first_download = c.requests().iter().find(|r| r.body.len == 0 && r.cancel.is_none()).map(|r| r.id);
+            if let (Some(id), true) = (first_download, window <= 1_000_000) {
+                let tail = 1 + rng.below(mux.knobs.buffer_size.saturating_sub(600)) as usize;
+                if let Some(resp) = b.responses.get_mut(&id) {
+                    resp.body = crate::actors::h1::BodySpec::Cl(window + tail);
+                    resp.delay_ns = 0;
+                    resp.fault = None;
+                    b.pace = crate::actors::Pace::greedy();
+                    let late = (200 + rng.below(200)) * MS;
+                    c.conn.wu = crate::actors::h2::WuPolicy { stream: crate::actors::h2::WuMode::Late(late), conn: crate::actors::h2::WuMode::Eager, fallback_ns: late };
+                    mux.soft_stop_at_ns = Some((40 + rng.below(110)) * MS);
+                    mux.family = format!("{}_stalled_download", mux.family);
+                }
+            }
+        }
+    }
     SoftStopPlan { mux }
 }
 
